@@ -141,6 +141,13 @@ def h(t, part):
     # the transport ends
     w.lose('e0')
     w.finish()
+    if True:
+        # a late enter_room (e.g. from an event handler still running in the background) for the dead session
+        for sd in sids:
+            try:
+                w.call(w.s.enter_room(sd, 'lobby'))
+            except Exception:
+                pass
     t.reached('transport-ended')
     t.note('fault_at', fault_at, 'raised in', inv['raised'], 'handler invocations', inv['n'])
     r = residue(w, 'e0', sids)
